@@ -526,6 +526,12 @@ def install(reg):
         return VBool(z3.And(a.tail == b.tail, a.path == b.path, z3.BoolVal(a.closed == b.closed)))
     SF["file_same"] = s_file_same
 
+    def s_relpath_components(p, path, root):
+        rel = p.engine.uf("relpath", S, S, S)(str_term(p, path), str_term(p, root))
+        split = p.engine.uf("str_split", S, S, PVSEQ)
+        return VBox(PV.PList(split(rel, z3.StringVal("/"))))
+    SF["relpath_components"] = s_relpath_components
+
     def s_listed_files(p):
         t = p.ghost.get("listed_files")
         if t is None:
